@@ -180,13 +180,16 @@ def check_after(st: Stats, pname: str, m: Any, wit: dict, rt: bool = True) -> bo
     from xdsl.parser import Parser
 
     st.evaluations += 1
+    # signatures name the input: a known finding is one (pass, failure, input) triple, so the same failure class on any
+    # other input is still reported
+    at = f"@{wit.get('file')}#{wit.get('chunk')}"
     try:
         m.verify()
     except BaseException as e:  # noqa: BLE001
         if isinstance(e, (KeyboardInterrupt, SystemExit)):
             raise
         msg = str(e).strip().splitlines()
-        st.violate(f"C17|{pname}|result-does-not-verify|{type(e).__name__}",
+        st.violate(f"C17|{pname}|result-does-not-verify|{type(e).__name__}|{at}",
                    f"{pname} returned normally but the module does not verify: {(msg[-1] if msg else '')[:140]}", wit)
         return False
     # uses recorded by ops that were detached but never erased are not among the things the property lists
@@ -197,7 +200,7 @@ def check_after(st: Stats, pname: str, m: Any, wit: dict, rt: bool = True) -> bo
         st.bump("stale_uses_by_detached_ops_seen")
     errs = [e for e in errs if e not in stale]
     if errs:
-        st.violate(f"C17|{pname}|structure|{errs[0][0]}", f"{pname} left inconsistent IR: {errs[0][1][:140]}", wit)
+        st.violate(f"C17|{pname}|structure|{errs[0][0]}|{at}", f"{pname} left inconsistent IR: {errs[0][1][:140]}", wit)
         return False
     if not rt:
         st.bump("roundtrip_oracle_skipped_input_does_not_roundtrip")
@@ -207,7 +210,7 @@ def check_after(st: Stats, pname: str, m: Any, wit: dict, rt: bool = True) -> bo
     except BaseException as e:  # noqa: BLE001
         if isinstance(e, (KeyboardInterrupt, SystemExit)):
             raise
-        st.violate(f"C17|{pname}|print-raises|{type(e).__name__}", f"printing the output of {pname} raised {type(e).__name__}: {str(e)[:100]}", wit)
+        st.violate(f"C17|{pname}|print-raises|{type(e).__name__}|{at}", f"printing the output of {pname} raised {type(e).__name__}: {str(e)[:100]}", wit)
         return False
     try:
         m2 = Parser(corpus.fresh_ctx(), t).parse_module()
@@ -215,12 +218,12 @@ def check_after(st: Stats, pname: str, m: Any, wit: dict, rt: bool = True) -> bo
         if isinstance(e, (KeyboardInterrupt, SystemExit)):
             raise
         msg = str(e).strip().splitlines()
-        st.violate(f"C17|{pname}|output-does-not-parse-back|{type(e).__name__}",
+        st.violate(f"C17|{pname}|output-does-not-parse-back|{type(e).__name__}|{at}",
                    f"the printed output of {pname} does not parse back: {(msg[-1] if msg else '')[:140]}", {**wit, "text": t[:1000]})
         return False
     if canon([m], normalize=True) != canon([m2], normalize=True):
         where = first_op_diff(m, m2)
-        st.violate(f"C17|{pname}|output-parses-to-different-ir|{where}", f"the printed output of {pname} parses to different IR ({where})",
+        st.violate(f"C17|{pname}|output-parses-to-different-ir|{where}|{at}", f"the printed output of {pname} parses to different IR ({where})",
                    {**wit, "text": t[:1000]})
         return False
     return True
